@@ -2,6 +2,7 @@
    one operation per line *)
 open Conv
 open BinNums
+open Datatypes
 open PrimModel
 open Tl1Model
 open ObjRandModel
@@ -12,21 +13,34 @@ let schema = load_schema Sys.argv.(1)
 let xs = if Array.length Sys.argv > 2 then load_xschema Sys.argv.(2) else []
 
 let tid s = nat_of_int (int_of_string s)
+let fuel_tab : (string, nat) Hashtbl.t = Hashtbl.create 7
+let fuel_of (s : string) : nat =
+  match Hashtbl.find_opt fuel_tab s with
+  | Some n -> n
+  | None -> let n = nat_of_int (int_of_string s) in Hashtbl.replace fuel_tab s n; n
+
+(* the splitmix stream with the draw budget of the Go harness (ops_obj.go objDrawBudget): reading the word
+   at position >= budget raises, exactly where Go's (budget+1)-th draw panics *)
+exception Draw_budget
+let draw_budget = n_of_int 60000
+let budgeted (seed : coq_N) : coq_N -> coq_N =
+  fun i -> if BinNat.N.ltb i draw_budget then splitmix seed i else raise Draw_budget
 
 let run toks =
   match toks with
   (* rand <tid> <name> <seed> <fuel> : FillRandom from the splitmix stream of <seed>, written TL1 boxed *)
   | ["rand"; t; _name; seed; fuel] ->
-      (match fill_random (nat_of_int (int_of_string fuel)) schema xs (tid t) [] (splitmix (n_of_dec seed)) with
-       | FOk (v, _) ->
+      (match (try Some (fill_random (fuel_of fuel) schema xs (tid t) [] (budgeted (n_of_dec seed))) with Draw_budget -> None) with
+       | Some (FOk (v, _)) ->
            (match enc1 false schema (tid t) false [] v with
             | Some b -> "ok " ^ hex_of_bytes b
             | None -> "encnone " ^ value_to_string v)
-       | FFuel -> "fuel"
-       | FBad -> "bad")
+       | Some FFuel -> "fuel"
+       | Some FBad -> "bad"
+       | None -> "budget")
   (* randv: the value itself *)
   | ["randv"; t; _name; seed; fuel] ->
-      (match fill_random (nat_of_int (int_of_string fuel)) schema xs (tid t) [] (splitmix (n_of_dec seed)) with
+      (match fill_random (fuel_of fuel) schema xs (tid t) [] (splitmix (n_of_dec seed)) with
        | FOk (v, st) -> "ok " ^ value_to_string v ^ " | pos " ^ dec_of_n st.rs_pos ^ " cur " ^ dec_of_n st.rs_cur
        | FFuel -> "fuel"
        | FBad -> "bad")
